@@ -56,7 +56,10 @@ CHECKS.update({
                "DESIGN.md 3.1, 5/C10"),
     "C11": _ds("C11_Label with the caller's metadata modelled as a mutable object (MutateCaller between writes); "
                "copy semantics satisfies it, alias semantics (the repaired defect D3) violates it in the model; "
-               "replays pass one dict mutated in place and TLC judges the projected real states.",
+               "replays pass one dict mutated in place and TLC judges the projected real states; at every quiescent "
+               "point the library's own selection by shard metadata is also read back and judged by R11 of "
+               "Dataset_Eval.tla (all and only the examples written under a label), including labelled histories "
+               "into datasets without checksum algorithms.",
                "DESIGN.md 3.1, 5/C11"),
     "C18": _ds("C18_AllOrNothing: rejected writes (shape violations, encoder failures after the TFRecord file was "
                "opened) at every position relative to size and metadata roll-overs leave read-back and counts "
@@ -195,7 +198,8 @@ CHECKS.update({
              "to next() and drop) is imposed, and every event log is validated against ParallelMap_Trace.tla. At the "
              "Python level the extension rebuilt from the working tree is compared with the pure-Python reader for "
              "1..6 shards x 1..8 threads x all supported compressions x shuffle, with early drops followed by a "
-             "thread-count check and a fresh iteration.",
+             "thread-count check and a fresh iteration, and - for four attribute layouts with one-, two-, four- and "
+             "eight-byte items, booleans, scalars and rank 2/3 - on whole examples (dtype, shape, bytes).",
         design_ref="DESIGN.md 3.3, 4.4, 5/C15",
         note="Trusted: std::sync::mpsc, thread spawn/join, the gate mechanism of the harness. Task start-up is "
              "asynchronous (not gate-controlled); completion order, next() and drop are controlled.",
@@ -226,7 +230,8 @@ CHECKS.update({
         engine="Dataset.tla, BatchMap.tla, Reads_Eval.tla", category="model_checking",
         text="Write side: C03_WriteOrder of Dataset.tla (closing order, depth-first children, merge keeps update "
              "order, multi-writer in argument order) model checked and judged on projected states and real read-backs "
-             "of replayed histories with splits interleaved inside sessions. Read side: BatchMap.tla OrderPreserving "
+             "of replayed histories with splits interleaved inside sessions and shard-level metadata that goes away "
+             "and comes back inside a session. Read side: BatchMap.tla OrderPreserving "
              "for every completion order; an edge cover of completion orders is imposed on the real unshuffled "
              "concurrent path through gates around process_and_list. End to end every interface with shuffle=0 "
              "yields, on repeated passes, on the writing handle and after reopening, for file_parallelism in "
@@ -286,7 +291,10 @@ CHECKS.update({
 CHECKS["C18"]["text"] += (" A declaration sweep (every dtype x format, supported or not, with well-typed, fractional, "
                           "textual, wider-dtype, missing-attribute and extra-attribute values, the odd write being the "
                           "second or the first write of a shard) checks that an accepted write keeps the dataset "
-                          "readable and a rejected one leaves no trace; the remaining format/dtype-table defects are listed as known findings.")
+                          "readable and a rejected one leaves no trace; the remaining format/dtype-table defects are listed as known findings. "
+                          "A shape sweep (declared x presented shapes of other rank, other size, and same rank and size "
+                          "with other dimensions; first / middle / last attribute; three formats) checks that every shape "
+                          "violation is rejected and the good writes read back with their values.")
 CHECKS.update({
     "C01": dict(
         engine="CodecCells.tla, CodecCells_Eval.tla", category="exploration",
